@@ -14,7 +14,7 @@ RULE = ("message lengths 0, 1, 33, 94 and every length that makes tr||M' straddl
         "Sign_internal on all. Evidence records the histogram of rejection causes seen. Non-trivial = every distinct (set, key, message, mode).")
 ASSUMPTIONS = ["termination is not provable (rejection sampling on hash output): the theorems are per fuel; evidence records the largest attempt count seen",
                "keys/messages sampled; rare rejection causes forced through crafted keys"]
-TIMEOUT = {"quick": 1500, "thorough": 3400}
+TIMEOUT = {"quick": 500, "thorough": 2400}
 TRACE_HIST = {}
 CORPUS_DIR = os.path.join(os.path.dirname(os.path.dirname(os.path.dirname(os.path.abspath(__file__)))), "corpus")
 
